@@ -324,14 +324,15 @@ SpiFlashOpResult spi_flash_erase_sector(uint16 sec) {
   sdk_flash_ops++;
   if (sdk_flash_crash_at && sdk_flash_ops == sdk_flash_crash_at) crash_now();
   int fail = (sdk_flash_fail_at && sdk_flash_ops == sdk_flash_fail_at) || (sdk_flash_fail_from && sdk_flash_ops >= sdk_flash_fail_from);
-  int effect = !fail || sdk_flash_fail_mode == 1;
+  int effect = !fail || sdk_flash_fail_mode == 1 || sdk_flash_fail_mode == 4;
   if (sec >= SDK_FLASH_SECTORS) {
     sdk_out("FLASH erase %u OOR", sec);
     return SPI_FLASH_RESULT_ERR;
   }
   if (effect) memset(&sdk_flash[(size_t)sec * 4096], 0xff, 4096);
-  SpiFlashOpResult r = (fail && sdk_flash_fail_mode != 2) ? SPI_FLASH_RESULT_ERR
-                                                          : SPI_FLASH_RESULT_OK;
+  /* fail modes: 0 error, no effect; 1 error after taking effect; 2 silent (OK, no effect); 3 timeout, no effect; 4 timeout after effect */
+  SpiFlashOpResult r = !fail || sdk_flash_fail_mode == 2 ? SPI_FLASH_RESULT_OK
+                       : sdk_flash_fail_mode >= 3 ? SPI_FLASH_RESULT_TIMEOUT : SPI_FLASH_RESULT_ERR;
   if (sdk_flash_log) sdk_out("FLASH erase %u %d", sec, (int)r);
   return r;
 }
@@ -344,7 +345,7 @@ SpiFlashOpResult spi_flash_write(uint32 des, uint32 *src, uint32 size) {
     crash_now();
   }
   int fail = (sdk_flash_fail_at && sdk_flash_ops == sdk_flash_fail_at) || (sdk_flash_fail_from && sdk_flash_ops >= sdk_flash_fail_from);
-  int effect = !fail || sdk_flash_fail_mode == 1;
+  int effect = !fail || sdk_flash_fail_mode == 1 || sdk_flash_fail_mode == 4;
   if ((uint64_t)des + size > sizeof(sdk_flash)) {
     sdk_out("FLASH write %u %u OOR", des, size);
     return SPI_FLASH_RESULT_ERR;
@@ -353,8 +354,8 @@ SpiFlashOpResult spi_flash_write(uint32 des, uint32 *src, uint32 size) {
     const uint8_t *s = (const uint8_t *)src;
     for (uint32 i = 0; i < size; i++) sdk_flash[des + i] &= s[i];
   }
-  SpiFlashOpResult r = (fail && sdk_flash_fail_mode != 2) ? SPI_FLASH_RESULT_ERR
-                                                          : SPI_FLASH_RESULT_OK;
+  SpiFlashOpResult r = !fail || sdk_flash_fail_mode == 2 ? SPI_FLASH_RESULT_OK
+                       : sdk_flash_fail_mode >= 3 ? SPI_FLASH_RESULT_TIMEOUT : SPI_FLASH_RESULT_ERR;
   if (sdk_flash_log) sdk_out("FLASH write %u %u %d", des, size, (int)r);
   return r;
 }
